@@ -242,6 +242,10 @@ def last_value_only(g, bid):
         ty = b.locals[local]["ty"]
         if ty in ("()",) or ty.startswith(("&mut", "std::ops::ControlFlow", "std::option::Option<std::result", "std::result::Result")):
             continue
+        from .carried import plain_type
+        if ty.startswith("std::option::Option<") and plain_type(ty):
+            continue      # `let mut found = None; for .. { if .. { found = Some(bound) } }`: a search result (an index,
+                          # a bound, a name), not a value that has to be accumulated over the elements
         copies = copies_of(b, local)
         uses = real_use_blocks(b, copies)
         for d in dblocks:
